@@ -261,6 +261,23 @@ fn decompositions(rng: &mut Rng, len: usize, runs: &[(usize, usize)], nrandom: u
     ops.push(Op::SetLen(len));
     ops.push(Op::SetLen(len));
     out.push(("gaps_two_steps", ops));
+    // set_len with exactly the current length between the two halves of each run, and in front of each run after the
+    // gap was declared (documented: no effect)
+    let mut ops = Vec::new();
+    for (s, l) in runs.iter() {
+        ops.push(Op::SetLen(*s));
+        ops.push(Op::SetLen(*s));
+        if *l >= 2 {
+            ops.push(Op::TrySet(*s, *l / 2));
+            ops.push(Op::SetLen(*s + *l / 2));
+            ops.push(Op::TrySet(*s + *l / 2, *l - *l / 2));
+        } else {
+            ops.push(Op::TrySet(*s, *l));
+        }
+        ops.push(Op::SetLen(*s + *l));
+    }
+    ops.push(Op::SetLen(len));
+    out.push(("set_len_exact", ops));
     // empty runs everywhere: before each run, between the two halves of each run, and beyond the end
     let mut ops = Vec::new();
     for (s, l) in runs.iter() {
